@@ -2,7 +2,7 @@
 //! the intercept-only model (1x1 information, with weights and offsets), prediction, the not-converged error.
 //! Designs with more than one column (2x2 and larger solves inside `fit`, ridge penalty) are NOT decided.
 use crate::rt::{fabs, inp};
-use crate::{harness, vassert, vassume, vclose};
+use crate::{harness, harness_s, vassert, vassume, vclose};
 use compute::predict::*;
 
 fn rng(k: u32, lo: f64, hi: f64) -> f64 {
@@ -86,7 +86,7 @@ harness!(name=c06_family_gamma, prop=C06, mode=R, kind=normal, tier=quick, unwin
 harness!(name=c06_family_exponential, prop=C06, mode=R, kind=normal, tier=quick, unwind=20, { family(5) });
 
 // @cap c06_step_: 120
-// @bound c06_step_: intercept-only design (one column of ones), two observations with symbolic weights in [0.1, 10] and offsets in +-2, one scoring step from the documented start beta0 = mean(y)
+// @bound c06_step_: intercept-only design (one column of ones), two observations with symbolic weights in [0.1, 10] and offsets in +-2, one scoring step from the documented start beta0 = mean(y); the linear solver inside fit is replaced by its contract A x = b (what C01 decides about it)
 // @claim c06_step_: the coefficient after one step satisfies I(beta0) (beta0 - beta1) = U(beta0) with the textbook weighted score U and Fisher information I of the family (so a fixed point of the iteration is a root of the score equations); the reported deviance is the family's deviance at the means of beta0; with max_iter = 1 the fit reports an error rather than success (R)
 fn step(k: u8, with_wo: bool) {
     let y = [yrange(k, 0), yrange(k, 1)];
@@ -119,11 +119,11 @@ fn step(k: u8, with_wo: bool) {
     vclose!(info * (b1 - b0), score, 1e-6 * (1.0 + fabs(score)), "score equation after one step");
     vclose!(glm.deviance().unwrap(), dev, 1e-6 * (1.0 + fabs(dev)), "reported deviance");
 }
-harness!(name=c06_step_gaussian, prop=C06, mode=R, kind=normal, tier=thorough, unwind=20, { step(0, true) });
-harness!(name=c06_step_poisson, prop=C06, mode=R, kind=normal, tier=thorough, unwind=20, { step(2, true) });
-harness!(name=c06_step_bernoulli, prop=C06, mode=R, kind=normal, tier=thorough, unwind=20, { step(1, false) });
-harness!(name=c06_step_gamma, prop=C06, mode=R, kind=normal, tier=thorough, unwind=20, { step(4, true) });
-harness!(name=c06_step_bernoulli_wo, prop=C06, mode=R, kind=normal, tier=thorough, unwind=20, { step(1, true) });
+harness_s!(name=c06_step_gaussian, prop=C06, mode=R, kind=normal, tier=thorough, unwind=20, { step(0, true) });
+harness_s!(name=c06_step_poisson, prop=C06, mode=R, kind=normal, tier=thorough, unwind=20, { step(2, true) });
+harness_s!(name=c06_step_bernoulli, prop=C06, mode=R, kind=normal, tier=thorough, unwind=20, { step(1, false) });
+harness_s!(name=c06_step_gamma, prop=C06, mode=R, kind=normal, tier=thorough, unwind=20, { step(4, true) });
+harness_s!(name=c06_step_bernoulli_wo, prop=C06, mode=R, kind=normal, tier=thorough, unwind=20, { step(1, true) });
 
 // @claim c06_predict_: predictions equal the inverse link of X beta + offset (coefficients set directly; intercept + one regressor, two rows) (R)
 fn predict(k: u8) {
@@ -150,3 +150,32 @@ fn predict(k: u8) {
 harness!(name=c06_predict_gaussian, prop=C06, mode=R, kind=normal, tier=quick, unwind=20, { predict(0) });
 harness!(name=c06_predict_poisson, prop=C06, mode=R, kind=normal, tier=quick, unwind=20, { predict(2) });
 harness!(name=c06_predict_bernoulli, prop=C06, mode=R, kind=normal, tier=quick, unwind=20, { predict(1) });
+
+// ---- ridge-penalised Gaussian fit = ridge least squares (compositional: `solve` replaced by its contract A x = b)
+// @bound c06_ridge_: Gaussian family, the 3 x 2 design with rows (1,-1), (1,0), (1,1), unit weights, symbolic responses in +-100 and penalty strength alpha in [0.01, 10]; at most MAXIT scoring iterations (instance); the linear solver inside fit is replaced by its contract (what C01 decides about it): the claim is "fit is right if solve is"
+// @claim c06_ridge_: whenever fit reports success the coefficients are the ridge least-squares solution with the configured strength and an unpenalised intercept: beta0 = mean(y), beta1 = (y3 - y1) / (2 + alpha), to 1e-4 relative (R)
+// @cap c06_ridge_: 150
+fn ridge_gaussian(maxit: usize) {
+    let y = [rng(0, -1.0e2, 1.0e2), rng(1, -1.0e2, 1.0e2), rng(2, -1.0e2, 1.0e2)];
+    let alpha = rng(3, 0.01, 10.0);
+    let x = [1.0, -1.0, 1.0, 0.0, 1.0, 1.0];
+    let mut glm = GLM::new(ExponentialFamily::Gaussian);
+    glm.set_penalty(alpha);
+    let ok = glm.fit(&x, &y, maxit).is_ok();
+    if ok {
+        let c = glm.coef().unwrap();
+        vassert!(c.len() == 2, "two coefficients");
+        let b0 = (y[0] + y[1] + y[2]) / 3.0;
+        let b1 = (y[2] - y[0]) / (2.0 + alpha);
+        vclose!(c[0], b0, 1e-4 * (1.0 + fabs(b0)), "intercept of the ridge fit (unpenalised)");
+        vclose!(c[1], b1, 1e-4 * (1.0 + fabs(b1)), "slope of the ridge fit with strength {:e}", alpha);
+    }
+}
+harness_s!(name=c06_ridge_gaussian_2, prop=C06, mode=R, kind=normal, tier=quick, unwind=8, { ridge_gaussian(2) });
+harness_s!(name=c06_ridge_gaussian_3, prop=C06, mode=R, kind=normal, tier=thorough, unwind=8, { ridge_gaussian(3) });
+// up to 60 iterations: symbolically only the runs that stop within the unwinding bound are explored (unwinding
+// assertions off; for a Gaussian model a correct scoring iteration is stationary after its first step, so these are
+// all runs unless the first deviance is exactly zero); the native replays and the native search run all 60
+// @nounwindassert c06_ridge_gaussian_60: on
+// @cap c06_ridge_gaussian_60: 15
+harness_s!(name=c06_ridge_gaussian_60, prop=C06, mode=R, kind=normal, tier=thorough, unwind=5, { ridge_gaussian(60) });
